@@ -8,7 +8,7 @@ import string
 
 RULE = ("(LOCUS: each of the twelve molecule types or none, topology / division / date / stated length present or absent, trailing "
         "blanks; REFERENCE with an empty range written with or without the two blanks; keys over all visible characters; "
-        "quotation marks inside qualifier values: generated, compared with the model, NOT judged — outside the quantifier) (locations: spans, single bases, complement, join, and the INSDC forms order/bond/gap/one-of, n.m, n^m, remote "
+        "quotation marks inside qualifier values: generated, compared with the model; that QUALIFIER is not judged — outside the quantifier — the rest of the record and file is) (locations: spans, single bases, complement, join, and the INSDC forms order/bond/gap/one-of, n.m, n^m, remote "
         "acc.v:a..b as text; qualifiers quoted, unquoted, value-less, keys with capitals and digits, repeated keys; empty standard "
         "blocks written or left out; extra keyword blocks in any of the 7 slots between LOCUS and FEATURES) "
         "abstract records laid out by the independent writer of Spec/GbLayout.lean: sequence 1..2000 letters (quick; a few to 2*10^4) "
@@ -23,9 +23,10 @@ TRUSTED_BASE = ["Spec/GbLayout.lean: the independent writer (NCBI flat-file colu
                 "scanners standing for the four regular expressions of parseLocus/getSequence (checked by correspondence only)",
                 "ASCII restriction: Go rune/byte behaviour on non-ASCII input is outside the model"]
 ASSUMPTIONS = ["inputs are ASCII",
-               "qualifier values hold no double quote, as the quantifier says (Spec quoteFreeValues, part of the judge's domain). The theorems "
-               "(wfQual) also cover quotation marks INSIDE a value, returned verbatim, because C03's round trip needs them; such records are "
-               "generated and compared with the model but not judged: whether a doubled quote inside a quoted value states one quote (the "
+               "qualifier values hold no double quote, as the quantifier says. The theorems (wfQual) also cover quotation marks INSIDE a value, "
+               "returned verbatim, because C03's round trip needs them; a qualifier with such a value is generated and compared with the model "
+               "but not judged (masked on both sides; every other field of the record and every other record of the file is judged; a "
+               "difference from the model confined to such values is counted and printed as out-of-domain drift): whether a doubled quote inside a quoted value states one quote (the "
                "INSDC escape) or two is not decided by this property (genbank.Parse returns it verbatim and genbank.Build does not double)",
                "location text is one INSDC-shaped expression (atom or operator(loc,...), complement with exactly one operand — a restriction of "
                "the check's grammar, Go reads more): texts with unbalanced or stray parentheses are outside the domain (Spec isLocText); "
@@ -354,6 +355,11 @@ def cases(seed, tier):
     for loc in ("1..9223372036854775808", "99999999999999999999", "join(1..2,9223372036854775807..9223372036854775808)"):
         rec = record(r, tier, small=True, trap=0.0)
         yield mk("read", True, False, [with_features(rec, [["gene", loc, "", "0"]])])
+    # qualifier values that begin or end with a quotation mark (f2612ce: only the enclosing pair is stripped): outside the domain
+    # of this check (wfQual), model and code must agree; C03 judges them through Build
+    for v in ('he said "hi"', '"hi" he said', '"', 'a"', '"a', 'x "y" z', '""', '"a"', 'a""'):
+        rec = record(r, tier, small=True, trap=0.0)
+        yield mk("read", True, False, [with_features(rec, [["gene", "1", "", "2", "note", v, "", "0", "label", "plain", "", "0"]])])
     # every molecule type x topology x division, short sequences of every small length
     k = 0
     for mol in range(4):
@@ -487,8 +493,9 @@ def raw_cases(r, n):
 PARTIAL = ["features_recovered / parse_layout: proved for features whose qualifier keys are pairwise distinct; a feature with a repeated key "
            "(several /db_xref) keeps only the last value because poly.Feature.Attributes is a map[string]string — known finding "
            "C01-repeated-qualifier-key (witness theorem repeated_qualifier_key_witness); everything else of the statement is at full strength. "
-           "Judge on that class: tagged when the failure is confined to the qualifiers of the repeated keys (any loss there), plain FAIL when "
-           "anything else differs; a reply that keeps every stated value (repeated or joined) passes and its difference from the model is drift"]
+           "Judge on that class: tagged only when everything else is as stated AND each repeated key is returned once with ONE OF its stated "
+           "values (the loss the finding names); a missing key, a text the record does not state, or a difference anywhere else is a plain "
+           "FAIL; a reply that repeats the key with the stated values or returns them joined in order by a separator passes (/kf-repaired)"]
 TECHNIQUE = ("Lean 4 proof over an executable model of genbank.Parse / ParseMulti / ParseFlat against an independent flat-file "
              "writer (round trip parse (layout r l) = r for every record and every layout choice); differential correspondence "
              "on generated (record, layout) pairs")
